@@ -220,21 +220,49 @@ def gen_fault(rng, cfg):
 DRAIN = ['deq A 2175 0', 'deq B 2175 0', 'deliver A', 'deliver B', 'recv A', 'recv B', 'ack A', 'ack B']
 
 
+def impl_exception(ck, run, case, ops, crashed):
+    """an exception of the implementation that is not a documented outcome of the call: a concrete
+    violation with the history as replay; the history is abandoned"""
+    cls, opname, text = crashed
+    d = dict(case)
+    d['ops'] = list(ops)
+    d['exception'] = '%s: %s' % (cls, text)
+    ck.violation('impl-exception:%s:%s' % (cls, opname),
+                 '%s raised %s on an established data link connection (history in replay)' % (opname, cls), d)
+    run.dead = True
+    if run.mon:
+        run.mon.bad.append('impl-exception')
+
+
 class Run(object):
     """one history on the real pair; collects model input lines and the implementation's observations"""
 
     def __init__(self, ck, cfg, kind, monitor=True):
+        self.ck = ck
         self.cfg = cfg
         self.kind = kind
-        self.mon = Monitor(ck, cfg, {'kind': kind, 'cfg': list(cfg)}) if monitor else None
-        self.pair = Pair(*cfg, observer=self.mon)
+        self.dead = False
+        self.case = {'kind': kind, 'cfg': list(cfg)}
+        self.mon = Monitor(ck, cfg, self.case) if monitor else None
         self.lines = ['init %d %d %d %d' % cfg]
-        self.obs = ['init | ' + self.pair.state()]
+        self.obs = []
+        try:
+            self.pair = Pair(*cfg, observer=self.mon)
+            self.obs = ['init | ' + self.pair.state()]
+        except Exception as e:
+            self.pair = None
+            impl_exception(ck, self, self.case, [], (type(e).__name__, 'setup', str(e)[:200]))
 
     def op(self, line):
+        if self.dead:
+            return None
         if self.mon:
             self.mon.ops.append(line)
         out, st = self.pair.op(line)
+        if self.pair.crashed:
+            # the crashed step is not compared with the model; everything before it still is
+            impl_exception(self.ck, self, self.case, self.lines[1:] + [line], self.pair.crashed)
+            return out
         self.lines.append(line)
         self.obs.append(out + ' | ' + st)
         if self.mon and line.startswith('send'):
@@ -245,12 +273,14 @@ class Run(object):
     def drain(self):
         """stop sending; let the link run until nothing moves any more"""
         for _ in range(200):
+            if self.dead:
+                return
             before = self.pair.state() + repr([len(self.mon.got[d]) for d in 'AB'] if self.mon else '')
             for line in DRAIN:
                 self.op(line)
-            if self.pair.state() + repr([len(self.mon.got[d]) for d in 'AB'] if self.mon else '') == before:
+            if self.dead or self.pair.state() + repr([len(self.mon.got[d]) for d in 'AB'] if self.mon else '') == before:
                 break
-        if self.mon:
+        if self.mon and not self.dead:
             self.mon.final()
 
 
@@ -263,33 +293,51 @@ class LlcRun(object):
     def __init__(self, ck, cfg, link, agf):
         self.kind = 'llc-walk' if agf == (False, False) else 'llc-agf-walk'
         self.compare = agf == (False, False)
-        case = {'kind': self.kind, 'cfg': list(cfg), 'agf': list(agf), 'link_miu': list(link)}
-        self.pair = LlcPair(cfg[0], cfg[1], cfg[2], cfg[3], link[0], link[1], agf)
+        self.ck = ck
+        self.dead = False
+        self.case = case = {'kind': self.kind, 'cfg': list(cfg), 'agf': list(agf), 'link_miu': list(link)}
+        self.cfg = tuple(cfg)
+        self.lines = ['init %d %d %d %d' % self.cfg]
+        self.obs = []
+        self.moved = 0
+        try:
+            self.pair = LlcPair(cfg[0], cfg[1], cfg[2], cfg[3], link[0], link[1], agf)
+        except Exception as e:
+            self.pair = None
+            self.mon = Monitor(ck, self.cfg, case)
+            impl_exception(ck, self, case, [], (type(e).__name__, 'setup', str(e)[:200]))
+            return
         self.cfg = self.pair.cfg
         self.mon = Monitor(ck, self.cfg, case)
         self.pair.observer = self.mon
         self.lines = ['init %d %d %d %d' % self.cfg]
         self.obs = ['init | ' + self.pair.state()]
-        self.moved = 0
 
     def op(self, line):
+        if self.dead:
+            return
         self.mon.ops.append(line)
         w = line.split()
         if w[0] == 'xchg':          # one half of a symmetry turn: collect on w[1], dispatch at the peer
             sd = w[1]
             self._one('collect %s %d' % (sd, self.pair.link_miu[sd]))
-            while self.pair.wire[sd]:
+            while self.pair.wire[sd] and not self.dead:
                 self._one('deliver ' + other(sd))
         else:
             out = self._one(line)
-            if w[0] == 'send':
+            if w[0] == 'send' and not self.dead:
                 self.mon.send_result(w[1], bytes.fromhex('' if w[2] == '-' else w[2]), out)
         for sd in 'AB':
+            if self.dead:
+                break
             if not self.pair.ep[sd].state.ESTABLISHED and 'left-established' not in self.mon.bad:
                 self.mon.v('left-established', 'a connection left the ESTABLISHED state without close()', side=sd)
 
     def _one(self, line):
         out, st = self.pair.op(line)
+        if self.pair.crashed:
+            impl_exception(self.ck, self, self.case, self.mon.ops, self.pair.crashed)
+            return out
         if out not in ('pdu none', 'deliver none', 'recv ok none', 'unit') and not out.startswith('send err') and not out.startswith('poll'):
             self.moved += 1
         self.lines.append(line)
@@ -301,9 +349,10 @@ class LlcRun(object):
             self.moved = 0
             for line in ('xchg A', 'xchg B', 'recv A', 'recv B'):
                 self.op(line)
-            if not self.moved:
+            if not self.moved or self.dead:
                 break
-        self.mon.final()
+        if not self.dead:
+            self.mon.final()
 
 
 def llc_walk(ck, rng, cfg, steps, agf, link=None, ops=None):
@@ -420,6 +469,8 @@ def main():
 
     def finish_run(r, nontrivial, sample=None):
         r.pair = None
+        if not r.obs:          # set-up raised: recorded as a violation, nothing to compare
+            return
         runs.append(r)
         ck.case((r.kind, r.cfg, len(r.lines), hash(tuple(r.lines[1:40]))), nontrivial, sample)
         ck.count(r.kind)
@@ -436,7 +487,8 @@ def main():
             if r.compare:
                 finish_run(r, True)
         else:
-            r = Run(ck, tuple(case['cfg']), 'replay')
+            fault = case.get('kind') == 'fault-walk'
+            r = Run(ck, tuple(case['cfg']), 'fault-walk' if fault else 'replay', monitor=not fault)
             for line in case.get('ops', []):
                 if line.split()[0] in ('send', 'recv', 'busy', 'pollacks', 'deq', 'ack', 'deliver', 'inject', 'collect'):
                     r.op(line)
@@ -488,6 +540,8 @@ def main():
     # ---- histories with a misbehaving peer (correspondence only: FRMR / discard / shutdown / RuntimeError branches)
     def flood(r, cfg):
         """the peer of `rs` ignores the window: in-sequence I PDUs beyond RW, then delivery"""
+        if r.dead:
+            return
         sd = rng.choice('AB')
         rs = other(sd)
         y = r.pair.ep[rs]
@@ -496,6 +550,8 @@ def main():
         for j in range(n):
             r.op('inject %s I:%d:%d:%02x' % (sd, (base + j) % 16, y.send_ack, j))
         for j in range(len(r.pair.wire[sd])):
+            if r.dead:
+                return
             r.op('deliver ' + rs)
             if rng.random() < 0.3:
                 r.op('recv ' + rs)
@@ -541,7 +597,8 @@ def main():
                 r.op(line)
             r.pair = None
             r.mon.ops = None
-            runs.append(r)
+            if r.obs:
+                runs.append(r)
             n += 1
             ck.cov['evaluations'] += 1
             ck._distinct.add(hash((cfg, len(prefix), hist)))
